@@ -368,7 +368,7 @@ PROPS["C16"] = {
         "note": "trusted: the tree snapshot (walk + SHA-256) sees every change below the sandbox root; escapes outside the sandbox root would not be seen",
         "technique": "property-based testing: whole-tree differential snapshots (metamorphic: write then remove restores the tree), round trip through reader and cache",
     },
-    "health": {"quick": {"id-with-slash-or-dot": 2000, "class-ends-in-spec-extension": 2000, "lastdir:missing": 1000, "lastdir:nested-missing": 1000,
+    "health": {"quick": {"id-with-slash-or-dot": 1500, "class-ends-in-spec-extension": 2000, "lastdir:missing": 1000, "lastdir:nested-missing": 1000,
                          "pre:same-devices-in-lower-directory": 1000, "pre:file-at-target": 500, "pre:same-stem-other-extension": 300, "write-failed": 50}},
     "units": [
         {"name": "rapid", "mode": "rapid", "run": "TestC16Rapid", "checks": {"quick": 24000, "thorough": 480000}},
@@ -432,7 +432,7 @@ PROPS["C17"] = {
         "note": "trusted: model/draft07.go (draft-07 semantics), cross-validated in every run against python jsonschema Draft7Validator (unit model-crosscheck; skipped and labelled if python3-vt is missing)",
         "technique": "property-based testing: differential against a reference draft-07 evaluator; JSON/YAML metamorphic equality; entry-point differential",
     },
-    "health": {"quick": {"model-valid": 2000, "model-invalid": 5000, "annotations-malformed": 500, "integer-beyond-2^53": 1000, "number-outside-float64": 300, "active-schema-switched": 5000, "in-memory-spec": 1000, "yaml-encodable": 10000}},
+    "health": {"quick": {"model-valid": 2000, "model-invalid": 5000, "annotations-malformed": 500, "integer-beyond-2^53": 1000, "number-outside-float64": 100, "active-schema-switched": 5000, "in-memory-spec": 1000, "yaml-encodable": 10000}},
     "units": [
         {"name": "regress", "mode": "plain", "run": "TestC17Regress"},
         {"name": "rapid", "mode": "rapid", "run": "TestC17Rapid", "checks": {"quick": 24000, "thorough": 480000}},
@@ -635,7 +635,7 @@ PROPS["C20"] = {
         "technique": "property-based testing: rapid state machine with differential oracle (fresh cache), resource invariants from /proc, fault injection by RLIMIT_NOFILE; helper process per default-cache history",
     },
     "helpers": ("vhelper",),
-    "health": {"quick": {"how:Configure(dirs) from auto": 30, "target:already-scanned": 20, "auto-switched": 200, "dir-list-changed": 200, "descriptor-shortage": 200, "configured-after-first-use": 50, "configured-before-first-use": 50, "growth-series": 2}},
+    "health": {"quick": {"how:Configure(dirs) from auto": 30, "target:already-scanned": 20, "auto-switched": 120, "dir-list-changed": 200, "descriptor-shortage": 200, "configured-after-first-use": 50, "configured-before-first-use": 50, "growth-series": 2}},
     "units": [
         {"name": "rapid", "mode": "rapid", "run": "TestC20Rapid", "race": True, "checks": {"quick": 480, "thorough": 12000}, "timeout": {"quick": 400, "thorough": 3600}},
         {"name": "growth", "mode": "plain", "run": "TestC20Growth", "race": True},
